@@ -57,6 +57,9 @@ func dustScenario(a dustArg) (*scenarioResult, error) {
 	if a.Kind == "revoked-pillar" {
 		return revokedPillar(a)
 	}
+	if a.Kind == "liquidity-first-stake" {
+		return liquidityFirstStake(a)
+	}
 	walk.LabConstants()
 	verifier.ReceiverMismatchEnforcementHeight = 1
 	res := &scenarioResult{}
@@ -199,7 +202,7 @@ func dustScenario(a dustArg) (*scenarioResult, error) {
 
 func dustRuns(run *core.Run, prop string) []ledgerRun {
 	args := []dustArg{{Seed: run.Seed, Amounts: [2]int64{1, 0}, Move: 1}, {Seed: run.Seed, Amounts: [2]int64{1, 1}, Move: 0}, {Seed: run.Seed, Amounts: [2]int64{3, 0}, Move: 2},
-		{Kind: "sentinel-late-revoke", Seed: run.Seed}, {Kind: "revoked-pillar", Seed: run.Seed}}
+		{Kind: "sentinel-late-revoke", Seed: run.Seed}, {Kind: "revoked-pillar", Seed: run.Seed}, {Kind: "liquidity-first-stake", Seed: run.Seed}}
 	if run.Thorough() {
 		args = append(args, dustArg{Seed: run.Seed, Amounts: [2]int64{2, 1}, Move: 2}, dustArg{Seed: run.Seed, Amounts: [2]int64{1, 0}, Move: 0}, dustArg{Seed: run.Seed, Amounts: [2]int64{100000000, 1}, Move: 99999999})
 	}
@@ -230,6 +233,9 @@ func dustRuns(run *core.Run, prop string) []ledgerRun {
 			fp := "C09"
 			if args[i].Kind == "revoked-pillar" {
 				fp = prop
+			}
+			if f[0] == "fixture" {
+				core.Fatal("scenario %+v: %s", args[i], f[1])
 			}
 			run.ReportFor(fp, fp+":"+f[0], f[1]+fmt.Sprintf(" (scenario %+v)", args[i]), map[string]interface{}{"kind": "dust", "arg": args[i]})
 		}
@@ -509,5 +515,75 @@ func revokedPillar(a dustArg) (*scenarioResult, error) {
 	name := fmt.Sprintf("revoked-pillar scenario seed=%d enforced=true", a.Seed)
 	res.Run = ledgerRun{Name: name, Events: pr.Events, Note: pr.Note}
 	res.Stats = fmt.Sprintf("%s: %d momentums, %d blocks, pillar contract rewarded up to epoch %d of %d", name, pr.Momentums, pr.Blocks, last.LastEpoch, cur)
+	return res, nil
+}
+
+// liquidityFirstStake: the first liquidity stake of a configured token arrives just after an epoch has ended and before that
+// epoch is paid: the token then has stake entries, all of weight zero in the epoch being paid. The update is still received.
+func liquidityFirstStake(a dustArg) (*scenarioResult, error) {
+	walk.LabConstants()
+	verifier.ReceiverMismatchEnforcementHeight = 1
+	res := &scenarioResult{}
+	find := func(key, format string, args ...interface{}) {
+		res.Findings = append(res.Findings, [2]string{key, fmt.Sprintf(format, args...)})
+	}
+	node.Clock.Set(time.Unix(1000000000, 0))
+	cap := ledger.StartCapture()
+	defer cap.Stop()
+	p, err := node.New("liquidity-first-stake", node.Options{Producer: true})
+	if err != nil {
+		return nil, err
+	}
+	defer p.Stop()
+	f := &cellFixture{n: p, w: walk.New(p, a.Seed), reasons: map[string]int{}}
+	if err := f.prepare(); err != nil {
+		return nil, err
+	}
+	for int(p.Height())%walk.EpochMomentums != 1+int(a.Seed%2) {
+		if err := p.Produce(0); err != nil {
+			return nil, err
+		}
+	}
+	stake := func(u *wallet.KeyPair, tok types.ZenonTokenStandard) {
+		if f.send(u, types.LiquidityContract, tok, unitsOf(1), definition.ABILiquidity.PackMethodPanic(definition.LiquidityStakeMethodName, constants.StakeTimeMinSec)) == nil {
+			find("fixture", "liquidity stake of %v refused at send time (%v)", tok, f.reasons)
+		}
+	}
+	stake(g.User1, f.token)
+	var perr error
+	for i := 0; i < walk.EpochMomentums+2*walk.UpdateMomentums; i++ {
+		if perr = p.Produce(0); perr != nil {
+			break
+		}
+		if i == walk.EpochMomentums-2 {
+			stake(g.User2, f.foreignToken) // and the other token's first stake just before the next epoch ends
+		}
+	}
+	if perr != nil {
+		find("producer-stops", "the producing node cannot produce: %v (problems %v)", perr, p.Problems)
+	}
+	if drained, err := f.w.Drain(40); err != nil || !drained {
+		find("inbox-not-drained", "the contract inboxes do not drain (%v)", err)
+	}
+	for _, pb := range p.Problems {
+		find("producer-problem", "producing pillar reported: %s", pb)
+	}
+	n := 0
+	definition.IterateLiquidityStakeEntries(p.Chain.GetFrontierMomentumStore().GetAccountStore(types.LiquidityContract).Storage(), func(*definition.LiquidityStakeEntry) error { n++; return nil })
+	if n == 0 {
+		return nil, fmt.Errorf("liquidity scenario: no stake entry was created")
+	}
+	ids := cap.ChainIDs()
+	if len(ids) != 1 {
+		return nil, fmt.Errorf("expected one chain in capture, got %v", ids)
+	}
+	pr := ledger.NewProjector()
+	pr.Observer = ledger.StandardObserver(walk.EpochMomentums)
+	if err := cap.Project(ids[0], pr); err != nil {
+		return nil, err
+	}
+	name := fmt.Sprintf("liquidity first-stake scenario seed=%d enforced=true", a.Seed)
+	res.Run = ledgerRun{Name: name, Events: pr.Events, Note: pr.Note}
+	res.Stats = fmt.Sprintf("%s: %d momentums, %d blocks, %d liquidity stake entries", name, pr.Momentums, pr.Blocks, n)
 	return res, nil
 }
